@@ -106,25 +106,30 @@ def _limits():
         pass
 
 
-def run_oalv(sub, cases, timeout_per_case=20.0, stack_mb=None, chunk=None):
+MAX_ABORTS = 40
+_ABORTS = {}
+
+
+def run_oalv(sub, cases, timeout_per_case=20.0, stack_mb=None, chunk=2000):
     """Runs cases through `oalv <sub>`; returns one result per case.
     A case that aborts the process (stack overflow, abort) yields
     {"outcome":"abort","signal":..}; a case that hangs yields {"outcome":"hang"}
-    (normal cases take milliseconds; the limit is 20 s).  After MAX_HANGS hangs the
-    remaining cases are not run ({"outcome":"skipped"}) - the hang is the finding.
-    The process is restarted after the offending case."""
+    (normal cases take milliseconds; the limit is 20 s).  After MAX_HANGS hangs or
+    MAX_ABORTS aborts the remaining cases are not run ({"outcome":"skipped"}) - the
+    crash is the finding.  The process is restarted after the offending case; cases are
+    fed in chunks so that a restart re-sends a bounded amount."""
     build_harness()
     results = []
-    i = 0
     n = len(cases)
     env = dict(os.environ)
     if stack_mb:
         env["OALV_STACK_MB"] = str(stack_mb)
+    i = 0
     while i < n:
-        if _HANGS.get(sub, 0) >= MAX_HANGS:
+        if _HANGS.get(sub, 0) >= MAX_HANGS or _ABORTS.get(sub, 0) >= MAX_ABORTS:
             results.extend({"outcome": "skipped"} for _ in range(n - i))
             break
-        batch = cases[i:]
+        batch = cases[i:i + chunk]
         inp = "".join(json.dumps(c) + "\n" for c in batch)
         budget = max(30.0, timeout_per_case + 0.02 * len(batch))
         p = subprocess.Popen([OALV, sub], stdin=subprocess.PIPE, stdout=subprocess.PIPE,
@@ -143,10 +148,11 @@ def run_oalv(sub, cases, timeout_per_case=20.0, stack_mb=None, chunk=None):
                 got.append(json.loads(ln))
             except ValueError:
                 break
-        results.extend(got[:len(batch)])
+        got = got[:len(batch)]
+        results.extend(got)
         i += len(got)
         if len(got) >= len(batch):
-            break
+            continue
         # the process died or ran out of time on case i
         if hung:
             alone = _run_single(sub, cases[i], timeout_per_case, env)
@@ -155,6 +161,7 @@ def run_oalv(sub, cases, timeout_per_case=20.0, stack_mb=None, chunk=None):
             results.append(alone)
         else:
             rc = p.returncode
+            _ABORTS[sub] = _ABORTS.get(sub, 0) + 1
             results.append({"outcome": "abort", "signal": -rc if rc is not None and rc < 0 else rc})
         i += 1
     if len(results) != n:
